@@ -799,9 +799,10 @@ class Emit:
             if src is None:
                 raise Unsupported(f".{e[2]}() receiver")
             cl = e[3][-1]
+            elem = "Rat" if getattr(self, "plain", False) else "Elem"
             if e[2] == "find":
                 # `.find(|v| p(v))`: the first element satisfying `p`, `None` if there is none
-                if len(e[3]) != 1 or len(cl[1]) != 1 or cl[1][0][0] != "pvar":
+                if len(e[3]) != 1 or len(cl[1]) != 1 or cl[1][0][0] != "pvar" or elem != "Elem":
                     raise Unsupported(".find() shape")
                 env2 = dict(env)
                 env2[cl[1][0][1]] = "Elem"
@@ -813,19 +814,30 @@ class Emit:
                 return f"({src}.find? fun {lname(cl[1][0][1])} => {b})", ("opt", "Elem")
             if len(e[3]) != 2 or len(cl[1]) != 2 or any(q[0] != "pvar" for q in cl[1]) or src != "xs":
                 raise Unsupported(".fold() shape")
-            itxt, ity = self.ex0(e[3][0], env)
-            if ity != "Nat":
+            itxt, ity = self.ex(e[3][0], env, "Elem" if e[3][0] == ("path", "None") else None)
+            if ity not in ("Nat", "Rat", "Elem"):
                 raise Unsupported(".fold() accumulator")
             env2 = dict(env)
             env2[cl[1][0][1]] = ity
-            env2[cl[1][1][1]] = "Elem"
-            if assigned_outer(cl[2]):
-                raise Unsupported(".fold() closure assigns")
-            b, tb = self.effect(cl[2], env2, [], None)
+            env2[cl[1][1][1]] = elem
+            if [o for o in assigned_outer(cl[2]) if o in env]:
+                raise Unsupported(".fold() closure assigns (as a value)")
+            b, tb = self.effect(cl[2], env2, [], ity if ity == "Elem" else None)
             if tb != ity:
                 raise Unsupported(".fold() closure result")
             body = "(" + b + ")" if "\n" not in b else "(\n" + indent(b) + ")"
             return f"(List.foldl (fun {lname(cl[1][0][1])} {lname(cl[1][1][1])} => {body}) {itxt} xs)", ity
+        if k == "mcall" and e[2] == "next" and not e[3] and e[1] == ("mcall", ("path", "self"), "into_iter", []):
+            # `self.into_iter().next()`: the first item
+            if not getattr(self, "plain", False):
+                raise Unsupported(".next() on a nullable series")
+            return "xs.head?", "Elem"
+        if (k == "mcall" and e[1] == ("mcall", ("mcall", ("path", "self"), "into_iter", []), "rev", [])
+                and e[2] in getattr(self, "siblings", {}) and not e[3]):
+            lean_name, ret_ty, nparams = self.siblings[e[2]]
+            if nparams != 0:
+                raise Unsupported("sibling call on the reversed series")
+            return f"({lean_name} sqrt xs.reverse)", ret_ty
         if k == "field":
             t, ty = self.ex0(e[1], env)
             if not (isinstance(ty, tuple) and ty[0] == "tuple"):
@@ -1287,7 +1299,7 @@ class Emit:
             if kind == "for_each":
                 if p0 is None or p0[0] != "pvar":
                     raise Unsupported("for_each closure")
-                env_b[p0[1]] = "Elem"
+                env_b[p0[1]] = "Rat" if getattr(self, "plain", False) else "Elem"
                 ptxt = lname(p0[1])
                 src = "xs"
             else:
@@ -1364,6 +1376,26 @@ class Emit:
                         env[p[1]] = "Nat"
                     continue
                 inner = [o for o in assigned_outer(e) if o in env]
+                if (inner and e[0] == "mcall" and e[2] == "fold" and len(e[3]) == 2 and e[3][1][0] == "closure"
+                        and e[1] == ("mcall", ("path", "self"), "into_iter", []) and p[0] == "pvar"):
+                    cl = e[3][1]
+                    if len(cl[1]) != 2 or any(q[0] != "pvar" for q in cl[1]):
+                        raise Unsupported(".fold() closure")
+                    itxt, ity = self.ex0(e[3][0], env)
+                    if ity not in ("Nat", "Rat"):
+                        raise Unsupported(".fold() accumulator")
+                    env2 = dict(env)
+                    env2[cl[1][0][1]] = ity
+                    env2[cl[1][1][1]] = "Rat" if getattr(self, "plain", False) else "Elem"
+                    b, tb = self.stmts(cl[2][1], cl[2][2], env2, inner, None)
+                    if tb != ity:
+                        raise Unsupported(".fold() closure result")
+                    acc = tuple_txt([lname(o) for o in inner] + [lname(cl[1][0][1])])
+                    lines.append(f"let {tuple_txt([lname(o) for o in inner] + [lname(p[1])])} :=\n"
+                                 + indent(f"List.foldl (fun {acc} {lname(cl[1][1][1])} =>\n{indent(b)})\n  "
+                                          f"{tuple_txt([lname(o) for o in inner] + [itxt])} xs"))
+                    env[p[1]] = ity
+                    continue
                 if inner:
                     txt, ty = self.effect(e, env, inner, None)
                     if ty is None:
